@@ -141,6 +141,9 @@ PROPS = {
         "runs": [
             {"mode": "model", "kinds": ["fifo"], "profiles": ["recycle", "recycle", "shape", "churn", "tiny"], "noinsr": True,
              "cases_quick": 12000, "cases_thorough": 150000, "trigger_any": bits("EVICT_AFTER_GAP", "EVICT_VICTIM_UPD"), "typesets": 7},
+            # updates and insertions through the range / iterator-pair overloads must keep (resp. set) the same order
+            {"mode": "model", "kinds": ["fifo"], "profiles": ["ranges", "ranges", "shape", "recycle"], "salt": "r",
+             "cases_quick": 4000, "cases_thorough": 50000, "trigger_any": bits("EVICT_AFTER_GAP", "EVICT_VICTIM_UPD"), "typesets": 7},
         ],
     },
     "C13": {
@@ -250,8 +253,13 @@ PROPS = {
         "assumptions": BASE_ASSUME + ["red-zone sanitizers miss intra-object and far out-of-bounds accesses; checked iterators cover most of that gap here"],
         "runs": [
             {"mode": "model", "kinds": KINDS, "profiles": ["tiny", "churn", "recycle", "recycle", "shape", "ranges", "ttl-edge", "loadfactor", "clear", "noop"],
-             "cases_quick": 250, "cases_thorough": 8000, "trigger_any": bits("HIT_RECYCLED"), "typesets": 7,
+             "cases_quick": 400, "cases_thorough": 8000, "trigger_any": bits("HIT_RECYCLED"), "typesets": 7,
              "flavours_quick": ["san", "asan"], "flavours_thorough": ["san", "asan", "clang-san", "memcheck"]},
+            # rehash pressure: load factors from 0.01 to 1000 with capacities up to 64 (checked iterators flag any use of an
+            # iterator stored across a rehash)
+            {"mode": "model", "kinds": CAPK, "profiles": ["loadfactor"], "salt": "lf",
+             "cases_quick": 300, "cases_thorough": 6000, "trigger_any": bits("HIT_RECYCLED", "EVICT"), "typesets": 7,
+             "flavours_quick": ["san"], "flavours_thorough": ["san", "asan", "clang-san"]},
             {"mode": "model", "kinds": KINDS, "profiles": ["recycle", "churn"], "salt": "long", "nops": (1500, 3000), "nops_thorough": (5000, 20000),
              "cases_quick": 16, "cases_thorough": 200, "trigger_any": bits("HIT_RECYCLED"), "typesets": 7,
              "flavours_quick": ["san"], "flavours_thorough": ["san", "asan"]},
